@@ -36,6 +36,8 @@ fn recase(s: &str, style: u64) -> String {
 
 pub fn run(ctx: &Ctx) -> Report {
     crate::env::set_log_mode(crate::env::LOG_OFF);
+    // this property's statement says nothing about the key provider: judge outcomes only
+    crate::e2e::set_judge_provider(false);
     let thorough = ctx.tier.thorough();
     // enumerate (presence subset, signed subset of present + date, host choice)
     let mut shapes: Vec<(u32, u32, u8)> = Vec::new();
